@@ -8,12 +8,18 @@
    (4) the text level (Proofs/TokenProofs.v): parse_body_lines - a body written one token group per line (`#<time>`,
    `<scalar><id>`, `<vector> <id>`, `$comment words $end`, `$dumpvars`/`$end`/`$dumpoff`/`$dumpon`) is parsed into exactly the
    events its lines denote; vcd_lines_transparent composes it with (2): from the text to the report.
-   NOT proved: other legal layouts of the same tokens (several token groups on one line, CRLF, indentation, `$dumpall`;
-   the machine handles them and prefix_events / cut_at_token_boundary in Properties/C15.v are properties of it) and the
+   (5) any layout (Proofs/LayoutProofs.v, LayoutStream.v): parse_body_layout - whatever precedes the first line feed is
+   skipped (known finding D6 is exactly this), then token groups separated by ANY non-empty blank space (blanks, tabs, CR,
+   LF in any mixture: several groups on one line, CRLF files, indentation, empty lines) are parsed into exactly the events
+   they denote, no error, no panic; vcd_layout_transparent / vcd_layout_transparent_rs: from such a text to the report.
+   NOT proved: `$dumpall` (an alias of a time stamp 0 in this reader), a last token without blank space behind it (the
+   end-of-input flush; prefix_events / cut_at_token_boundary in Properties/C15.v are properties of it) and the
    multi-threaded path (C03).  Those are decided by the correspondence run and the oracle that is
    computed from the abstract history (MANIFEST level_note). *)
 From WV Require Import Model.Base Model.Bits Model.WaveMem Model.VcdBody Spec.TimeSpec Spec.StoreSpec
-  Proofs.BitsProofs Proofs.StoreProofs Proofs.EncoderProofs Proofs.VcdStreamProofs Proofs.RealStringEnc Proofs.VcdStreamRS Proofs.BodyProofs Proofs.TokenProofs.
+  Proofs.BitsProofs Proofs.StoreProofs Proofs.EncoderProofs Proofs.VcdStreamProofs Proofs.RealStringEnc Proofs.VcdStreamRS Proofs.BodyProofs Proofs.TokenProofs
+  Proofs.LayoutProofs Proofs.LayoutStream.
+From Coq Require Import List. Import ListNotations.
 Open Scope N_scope.
 
 Check vcd_stream_transparent :
@@ -82,7 +88,67 @@ Check vcd_lines_transparent :
        load_signal lz_decompress blocks id (EncBits bits) = Ok sig /\
        observe_signal sig = outcome_map render_of (dedup R)).
 
+
+Check parse_body_layout :
+  forall debug pre ws0 items stop,
+  ~ In 10 pre -> ws ws0 -> Forall item_ok items ->
+  N.of_nat (length (pre ++ [10] ++ ws0 ++ btext items)) <= stop + 1 ->
+  parse_body debug (pre ++ [10] ++ ws0 ++ btext items) stop = (ievents items, PDone).
+
+Check vcd_layout_transparent :
+  forall (parse_f64 : list byte -> option (list byte)) (lz_compress : list byte -> list byte)
+         (lz_decompress : list byte -> nat -> option (list byte)),
+  (forall d n, (length d <= n)%nat -> lz_decompress (lz_compress d) n = Some d) ->
+  forall cap, 1 <= cap -> cap <= 65536 ->
+  forall debug tpes lookup pre ws0 items stop e blocks ttb id bits,
+  ~ In 10 pre -> ws ws0 -> Forall item_ok items ->
+  N.of_nat (length (pre ++ [10] ++ ws0 ++ btext items)) <= stop + 1 ->
+  (1 <= bits)%nat -> nth_error tpes id = Some (EncBits bits) ->
+  read_single_stream parse_f64 lz_compress cap debug tpes lookup (pre ++ [10] ++ ws0 ++ btext items) stop true = Ok e ->
+  enc_finish lz_compress e = Ok (blocks, ttb) -> N.of_nat (length ttb) < 4294967296 ->
+  exists ops, ops_of lookup true false (ievents items) = Some ops /\
+    (N.of_nat (count_vcd id ops) * (10 + N.of_nat bits) < 4294967264 ->
+     exists R sig,
+       Forall2 (decodes bits) R (recorded id ops [] false) /\
+       load_signal lz_decompress blocks id (EncBits bits) = Ok sig /\
+       observe_signal sig = outcome_map render_of (dedup R)).
+
+Check vcd_layout_transparent_rs :
+  forall (parse_f64 : list byte -> option (list byte)),
+  (forall r le, parse_f64 r = Some le -> length le = 8%nat) ->
+  forall (lz_compress : list byte -> list byte) (lz_decompress : list byte -> nat -> option (list byte)),
+  (forall d n, (length d <= n)%nat -> lz_decompress (lz_compress d) n = Some d) ->
+  forall cap, 1 <= cap -> cap <= 65536 ->
+  forall debug tpes lookup pre ws0 items stop e blocks ttb id str,
+  ~ In 10 pre -> ws ws0 -> Forall item_ok items ->
+  N.of_nat (length (pre ++ [10] ++ ws0 ++ btext items)) <= stop + 1 ->
+  nth_error tpes id = Some (rs_tpe str) ->
+  read_single_stream parse_f64 lz_compress cap debug tpes lookup (pre ++ [10] ++ ws0 ++ btext items) stop true = Ok e ->
+  enc_finish lz_compress e = Ok (blocks, ttb) -> N.of_nat (length ttb) < 4294967296 ->
+  exists ops, ops_of lookup true false (ievents items) = Some ops /\
+    (Forall (rs_op_ok id str) ops -> ops_cost id ops < 4294967264 ->
+     exists R sig,
+       Forall2 (gdecodes parse_f64 str) R (recorded_rs id ops [] false) /\
+       load_signal lz_decompress blocks id (rs_tpe str) = Ok sig /\
+       observe_signal sig = Ok (map (fun a : N * list byte => (fst a, if str then KString else KReal, snd a)) (gdedup R))).
+
+(* the vocabulary: an item is a token group with the blank space that follows its tokens *)
+Check (eq_refl : itext = fun i =>
+  match i with
+  | ITime d sep => (35 :: d) ++ sep
+  | IScalar c id sep => (c :: id) ++ sep
+  | IVector v sep1 id sep => v ++ sep1 ++ id ++ sep
+  | IComment words sepe sep => kw_comment ++ swords words ++ sepe ++ kw_end ++ sep
+  | IIgnored kw sep => kw ++ sep
+  end).
+Check (eq_refl : ievents = fun items => flat_map (fun i => events_of (line_of i)) items).
+Check (eq_refl : sepd = fun w => w <> [] /\ ws w).
+Check (eq_refl : ws = fun w => Forall (fun b => is_white_space b = true) w).
+
 Print Assumptions vcd_stream_transparent.
+Print Assumptions parse_body_layout.
+Print Assumptions vcd_layout_transparent.
+Print Assumptions vcd_layout_transparent_rs.
 Print Assumptions parse_body_lines.
 Print Assumptions vcd_lines_transparent.
 Print Assumptions vcd_stream_transparent_rs.
